@@ -182,7 +182,7 @@ def run_history(run, case):
     poisoned = False
     kept = []
     with IO.installed(env):
-        client = IO.make_client(kind, timeout=1.0)
+        client = IO.make_client(kind, timeout=1.0, **({'broadcast_enable': True} if case.get('broadcast_enable') else {}))
         if case.get('tid_start') is not None:
             client.transaction.tid = case['tid_start']
         for i, t in enumerate(txs):
@@ -305,7 +305,10 @@ def gen_case(r, kind, ntx, tid_start=None, clean_only=False):
         own = P.conformant_reply(regfile, m) or {'dir': RSP, 'fc': 3, 'registers': [1]}
         beh, foreign = make_script(r, kind, unit, own) if not clean_only else ({'kind': r.choice(['own', 'own', 'exception']), 'code': 2}, None)
         txs.append({'m': m, 'behaviour': beh, 'foreign': foreign})
-    return {'client': kind, 'unit': unit, 'transactions': txs, 'tid_start': tid_start, 'defaults_unit': r.random() < 0.2}
+    case = {'client': kind, 'unit': unit, 'transactions': txs, 'tid_start': tid_start, 'defaults_unit': r.random() < 0.2}
+    if unit != 0 and r.random() < 0.25:
+        case['broadcast_enable'] = True       # the client was told that unit 0 is the broadcast address: every other unit is answered as before
+    return case
 
 
 def run(run):
